@@ -520,6 +520,8 @@ struct InflateSession {
         bool last_drained = true;
         bool suspect = false;
         bool hdr_split = false; // some chunk boundary fell strictly inside the wrapper header
+        bool giant_active = false;
+        uint32_t giant_real = 0, giant_declared = 0; // bytes of the stream in the giant region / avail_in declared for it
         uint64_t suspect_hash = 0;
 
         uint64_t state_hash()
@@ -560,7 +562,29 @@ struct InflateSession {
                 if ((mode == ISAL_GZIP || mode == ISAL_ZLIB) && fed + feed < hdr_len && fed + feed > 0)
                         hdr_split = true;
                 int bs_before = st->block_state;
-                if (feed > 0 || ((flags & 4) && pending > 0)) {
+                // "all the rest, and the caller says so truthfully": what is pending plus every remaining byte of a valid stream lies at the
+                // start of a 4 GiB region of readable memory and avail_in declares (almost) all of it - 32-bit sums of avail_in and a few
+                // carried-over bytes wrap here and nowhere else
+                if ((flags & 512) && pristine && !giant_active && (uint64_t) pending + remaining < (1u << 20) && remaining > 0) {
+                        uint8_t *g = giant_source(pending + remaining);
+                        if (g) {
+                                if (pending)
+                                        memcpy(g, st->next_in, pending);
+                                memcpy(g + pending, bytes.data() + fed, remaining);
+                                retire_in();
+                                st->next_in = g;
+                                st->avail_in = 0xffffffffu - (uint32_t) ((uint64_t) plan.geti("hugedelta") % 12);
+                                giant_real = pending + remaining;
+                                giant_declared = st->avail_in;
+                                fed += remaining;
+                                feed = remaining;
+                                giant_active = true;
+                                COUNT("io.avail_in_near_4GiB");
+                        }
+                }
+                if (giant_active) {
+                        // the input stays where it is
+                } else if (feed > 0 || ((flags & 4) && pending > 0)) {
                         Slot *ns = g_arena.alloc(pending + feed, (flags & 32) ? (place ^ 1) : place, "in_chunk", 0, 1);
                         if (!ns)
                                 return budget();
@@ -1200,6 +1224,7 @@ static Json gen_inflate(Rng &r0, const std::string &focus, int tier)
                 dm.push(d);
         }
         p.set("damage", dm);
+        p.set("hugedelta", (int) rio.below(12));
         // ---- call history
         int im = (int) rio.below(6), om = (int) rio.below(6);
         uint32_t big = (uint32_t) std::max<uint64_t>((uint64_t) src.at("data").geti("n"), 64);
@@ -1209,7 +1234,7 @@ static Json gen_inflate(Rng &r0, const std::string &focus, int tier)
         for (uint32_t i = 0; i < nops; i++) {
                 uint32_t feed = gen_chunk(rio, rio.chance(1, 4) ? (int) rio.below(6) : im, big);
                 uint32_t out = gen_chunk(rio, rio.chance(1, 4) ? (int) rio.below(6) : om, big + 64);
-                int flags = (discipline & 1 ? 1 : 0) | (discipline & 2 ? 2 : 0) | (rio.chance(1, 10) ? 4 : 0) | (rio.chance(1, 4) ? 16 : 0) | (rio.chance(1, 4) ? 32 : 0) | (rio.chance(1, 12) ? 64 : 0) | (rio.chance(1, 12) ? 128 : 0) | (rio.chance(1, focus == "C17" ? 3 : 12) ? 256 : 0);
+                int flags = (discipline & 1 ? 1 : 0) | (discipline & 2 ? 2 : 0) | (rio.chance(1, 10) ? 4 : 0) | (rio.chance(1, 4) ? 16 : 0) | (rio.chance(1, 4) ? 32 : 0) | (rio.chance(1, 12) ? 64 : 0) | (rio.chance(1, 12) ? 128 : 0) | (rio.chance(1, focus == "C17" ? 3 : 12) ? 256 : 0) | (rio.chance(1, 40) ? 512 : 0);
                 Json o = Json::arr();
                 o.push(feed).push(out).push(flags);
                 ops.push(o);
